@@ -64,15 +64,58 @@ def corpus():
     return out
 
 
+STAKING_USER_OPS = ("Stake", "StakeProxy", "Claim", "ClaimNewValue", "Compound", "Unstake", "UnstakeProxy", "Unbond", "Merge", "ClaimBoosted")
+
+
+def staking_monitor(cfg, op, o):
+    """C05 on farm-staking (money flow): no legitimate user operation fails on a negative counter; the staking-token
+    balance backs direct principal + unbond amounts + un-accrued capacity + reserve; reserve = accrued - paid"""
+    out = []
+    if not o["ok"]:
+        m = o["msg"].lower()
+        if op[0] in STAKING_USER_OPS and ("cannot subtract because result would be negative" in m or "panic" in m or "overflow" in m):
+            out.append((f"staking-counter-underflow:{op[0]}", f"{op} failed with '{o['msg']}'"))
+        return out
+    ident = (o["supply"] - o["virt"]) + o["ubtot"] + (o["cap"] - o["acc"]) + o["reserve"] + o["donated"]
+    if o["bal"] != ident:
+        out.append(("staking-principal-not-backed", f"after {op}: balance {o['bal']} != principal {o['supply'] - o['virt']} + unbond {o['ubtot']} + unaccrued {o['cap'] - o['acc']} + reserve {o['reserve']} + donated {o['donated']}"))
+    pre = o["pre"]
+    k = op[0]
+    if k in ("Stake", "StakeProxy", "Merge", "ClaimBoosted"):
+        paid = o["b"]                                       # only the boosted part is paid by these
+    elif k in ("Claim", "ClaimNewValue", "Unstake", "UnstakeProxy"):
+        paid = o["outs"][-1]
+    elif k == "Compound":
+        paid = o["supply"] - pre["supply"]                  # the reward becomes principal
+    else:
+        paid = 0
+    if o["reserve"] - pre["reserve"] != (o["acc"] - pre["acc"]) - paid and op[0] in STAKING_USER_OPS:
+        out.append((f"staking-reserve-vs-accrued-minus-paid:{op[0]}", f"{op}: reserve {pre['reserve']} -> {o['reserve']}, accrued +{o['acc'] - pre['acc']}, paid {paid}"))
+    return out
+
+
+def staking_nontrivial(cfg, op, o):
+    if not o["ok"] or op[0] not in STAKING_USER_OPS:
+        return None
+    pre = o["pre"]
+    return ("staking", op[0], o["acc"] == o["cap"], o["reserve"] == 0, len(str(o["supply"])) // 5, o["acc"] > pre["acc"])
+
+
 def explore(tier, seed, model_ok=True, focus=False):
     """dex/farm histories, then farm-with-locked-rewards histories (same farm modules, rewards paid as locked tokens)"""
     from props.farm_locked_common import explore_locked, merge_into, corpus_locked, monitors_c05_with_lock, nontrivial_c05
     ex = explore_farm("C05", tier, seed, monitor, nontrivial, RULE, model_ok, focus, corpus=corpus())
     ex2 = explore_locked("C05", tier, seed, monitors_c05_with_lock, nontrivial_c05, RULE, model_ok, focus, scale=0.5, corpus=corpus_locked("C05"))
-    return merge_into(ex, ex2)
+    ex = merge_into(ex, ex2)
+    from props.staking_common import explore_staking
+    ex3 = explore_staking("C05", tier, seed, staking_monitor, staking_nontrivial, RULE, model_ok, focus, scale=0.5)
+    return merge_into(ex, ex3)
 
 
 def replay(data):
+    if data.get("replay", {}).get("system") == "staking":
+        from props.staking_common import replay_staking
+        return replay_staking(data, staking_monitor)
     if data.get("replay", {}).get("system") == "farm-locked":
         from props.farm_locked_common import replay_locked, monitors_c05_with_lock
         return replay_locked(data, monitors_c05_with_lock)
